@@ -224,6 +224,10 @@ func runOnce(input string) string {
 		return runTag(kv)
 	case "scn":
 		if scnTooBig(kv) {
+			// round 6: an absurd repeat count (8 digits and more) is run for real, in a child under RLIMIT_AS - it must be refused
+			if scnAbsurd(kv) {
+				return r6ChildCase(input)
+			}
 			return "oom-guard"
 		}
 		return runScn(kv)
@@ -239,8 +243,14 @@ func runOnce(input string) string {
 	case "ri":
 		return runRandInt(kv)
 	case "scnw":
+		if r6WeightsAbsurd(kv) {
+			return r6ChildCase(input)
+		}
 		return runScnWeights(kv)
 	case "rs":
+		if r6RandStringAbsurd(kv) {
+			return r6ChildCase(input)
+		}
 		return runRandString(kv)
 	case "scnnull":
 		return runScnNull(kv)
@@ -308,6 +318,17 @@ func childMain(mode string, args []string) {
 			}
 			if kv["k"] == "mas" {
 				done <- runMas(kv, input)
+				return
+			}
+			switch kv["k"] { // round 6: announced amounts beyond the bounds of the code
+			case "scn":
+				done <- runScn(kv)
+				return
+			case "scnw":
+				done <- runScnWeights(kv)
+				return
+			case "rs":
+				done <- runRandString(kv)
 				return
 			}
 			done <- runAmmo(kv, data)
